@@ -26,22 +26,27 @@ class Family:
     def units(self, tier):
         return [(self.name, tier, -1)] + [(self.name, tier, i) for i in range(len(self.tokens))]
 
-    def states(self, tier, first):
-        """Yield (level, bytes) for every distinct byte string spelled by a token sequence of length <= L whose first
-        token is tokens[first]  (first == -1: the empty sequence only)."""
+    def states(self, tier, first, L=None):
+        """Yield (level, bytes, unique) for every distinct byte string spelled by a token sequence of length <= L whose
+        first token is tokens[first]  (first == -1: the empty sequence only).
+
+        `unique` is True when no *other* unit can spell the same bytes (no other token is a prefix of the string), so the
+        parent may count the state without a cross-unit hash set; strings for which that is not certain are deduplicated
+        across units by hash."""
         if first < 0:
-            yield 0, b""
+            yield 0, b"", True
             return
-        L = self.L[tier]
+        L = self.L[tier] if L is None else L
         if L < 1:
             return
         g = self.grammar
         t0 = self.tokens[first]
         if g and not g(b"", t0):
             return
+        rivals = [t for i, t in enumerate(self.tokens) if i != first and (t.startswith(t0) or t0.startswith(t))]
         seen = {t0}
         frontier = [t0]
-        yield 1, t0
+        yield 1, t0, not any(t0.startswith(t) for t in rivals)
         for level in range(2, L + 1):
             nxt = []
             for s in frontier:
@@ -53,7 +58,7 @@ class Family:
                         continue
                     seen.add(u)
                     nxt.append(u)
-                    yield level, u
+                    yield level, u, not (rivals and any(u.startswith(r) for r in rivals))
             frontier = nxt
 
     def describe(self, tier):
